@@ -385,8 +385,30 @@ def outcome(fn, *args, horizon_s):
         return {"kind": "timeout"}
 
 
-def execute(case):
-    """Run the case on a fresh parser; returns the mc.util.outcome dict (value replaced by its type name)."""
+def _call(parser, call):
+    """One parse call on the given parser; `call` = {"chan", <input>} (a single-call case has the same keys)."""
+    chan = call["chan"]
+    if chan in ("argv", "defcfg"):
+        return outcome(parser.parse_args, [expand(a) for a in call["argv"]], horizon_s=HORIZON)
+    if chan == "string":
+        return outcome(parser.parse_string, expand(call["text"]), horizon_s=HORIZON)
+    if chan == "path":
+        if "text" in call:
+            with open("doc.yaml", "w", encoding="utf-8", newline="") as f:
+                f.write(expand(call["text"]))
+        return outcome(parser.parse_path, call["path"], horizon_s=HORIZON)
+    if chan == "object":
+        return outcome(parser.parse_object, build_obj(call["obj"]), horizon_s=HORIZON)
+    if chan == "env":
+        return outcome(parser.parse_env, {k: expand(v) for k, v in call["env"].items()}, horizon_s=HORIZON)
+    raise AssertionError(chan)
+
+
+def execute(case, only=None):
+    """Run the case on a fresh parser; returns the mc.util.outcome dict (value replaced by its type name).
+
+    A history case (chan "history") runs its calls one after the other on ONE fresh parser and returns the list of
+    their outcomes; `only=i` runs just call i of the history (on a fresh parser)."""
     from mc.util import restored_process_state
 
     shape, eoe, chan = case["shape"], case["eoe"], case["chan"]
@@ -395,22 +417,15 @@ def execute(case):
         os.chdir(fdir)
         try:
             dcf = case.get("defcfg")
-            parser = S.build(shape, eoe, default_config_files=[dcf] if dcf else None)
-            if chan in ("argv", "defcfg"):
-                o = outcome(parser.parse_args, [expand(a) for a in case["argv"]], horizon_s=HORIZON)
-            elif chan == "string":
-                o = outcome(parser.parse_string, expand(case["text"]), horizon_s=HORIZON)
-            elif chan == "path":
-                if "text" in case:
-                    with open("doc.yaml", "w", encoding="utf-8", newline="") as f:
-                        f.write(expand(case["text"]))
-                o = outcome(parser.parse_path, case["path"], horizon_s=HORIZON)
-            elif chan == "object":
-                o = outcome(parser.parse_object, build_obj(case["obj"]), horizon_s=HORIZON)
-            elif chan == "env":
-                o = outcome(parser.parse_env, {k: expand(v) for k, v in case["env"].items()}, horizon_s=HORIZON)
+            parser = S.build(shape, eoe, default_config_files=[dcf] if dcf else None, subs=case.get("subs", "same"))
+            if chan == "history":
+                calls = case["calls"] if only is None else [case["calls"][only]]
+                outs = []
+                for call in calls:
+                    os.chdir(fdir)
+                    outs.append(_call(parser, call))
             else:
-                raise AssertionError(chan)
+                outs = [_call(parser, case)]
         finally:
             os.chdir(fdir)
             if os.path.exists("doc.yaml"):
@@ -419,12 +434,13 @@ def execute(case):
                 from mc.core import HarnessError
 
                 raise HarnessError(f"a parse call changed the scratch directory: {sorted(os.listdir(fdir))}")
-    if o["kind"] == "ok":
-        import jsonargparse
+    for o in outs:
+        if o["kind"] == "ok":
+            import jsonargparse
 
-        o["is_namespace"] = isinstance(o["value"], jsonargparse.Namespace)
-        o["value"] = type(o["value"]).__name__
-    return o
+            o["is_namespace"] = isinstance(o["value"], jsonargparse.Namespace)
+            o["value"] = type(o["value"]).__name__
+    return outs if chan == "history" else outs[0]
 
 
 def judge(case, o):
@@ -459,21 +475,61 @@ def judge(case, o):
     raise AssertionError(kind)
 
 
+def _detail(o):
+    return f"{o['kind']} {o.get('type', '')} {o.get('code', '')} {(o.get('message') or o.get('stderr') or '')[:300]!r}"
+
+
+def _obs(o):
+    obs = o["kind"] if o["kind"] != "exit" else f"exit{o['code']}"
+    if o["kind"] == "escape":
+        obs += ":" + _short(o["type"])
+    return obs
+
+
 def run_one(case):
     """Worker: execute + judge; returns (observation class, [(signature, detail)])."""
+    if case["chan"] == "history":
+        return run_history(case)
     o = execute(case)
     if judge(case, o) == ["timeout"]:
         # a horizon hit is confirmed by a second execution (the first call in a worker also pays for lazy imports)
         o = execute(case)
     devs = []
     for d in judge(case, o):
-        detail = f"{o['kind']} {o.get('type', '')} {o.get('code', '')} {(o.get('message') or o.get('stderr') or '')[:300]!r}"
-        detail = f"[{case['focus']['tok']} at {case['focus']['kind']}, {case['focus'].get('form', 'plain')}] " + detail
+        detail = f"[{case['focus']['tok']} at {case['focus']['kind']}, {case['focus'].get('form', 'plain')}] " + _detail(o)
         devs.append((signature(d, case), detail))
-    obs = o["kind"] if o["kind"] != "exit" else f"exit{o['code']}"
-    if o["kind"] == "escape":
-        obs += ":" + _short(o["type"])
-    return case, obs, devs
+    return case, _obs(o), devs
+
+
+def run_history(case):
+    """Worker for a history case: every call of the history is judged by the single-call oracle (a call may exit
+    with status 0 only if IT asks for help / print_config).  A deviation of a later call that the same call also
+    shows on a fresh parser is not an effect of the history: it is reported under the single-call signature."""
+    calls = case["calls"]
+
+    def view(i):
+        v = {"eoe": case["eoe"], "chan": calls[i]["chan"], "focus": calls[i]["focus"]}
+        if "argv" in calls[i]:
+            v["argv"] = calls[i]["argv"]
+        return v
+
+    outs = execute(case)
+    if any(judge(view(i), o) == ["timeout"] for i, o in enumerate(outs)):
+        outs = execute(case)
+    devs = []
+    for i, o in enumerate(outs):
+        found = judge(view(i), o)
+        if not found:
+            continue
+        fresh = found if i == 0 else judge(view(i), execute(case, only=i))
+        for d in found:
+            where = f"[call {i + 1} of {[c['label'] for c in calls]}, exit_on_error={case['eoe']}] "
+            if d in fresh:
+                devs.append((signature(d, view(i)), where + _detail(o)))
+            else:
+                after = ">".join(c["fam"] for c in calls[:i])
+                devs.append((f"reused-parser:{d}:after-{after}", where + _detail(o)))
+    return case, ">".join(_obs(o) for o in outs), devs
 
 
 def run_case(case):
@@ -757,6 +813,110 @@ def defcfg_cases(shape, tier):
         yield case, is_ntp(tok, "document"), True
 
 
+# ------------------------------------------------------------------------------------------------
+# histories: several parse calls on ONE parser.  Per shape a small alphabet of calls (valid calls, requested exits,
+# cleanly reported faults of every class, alone and combined with --print_config, through every channel); the
+# quick tier runs every ordered pair (any call of the alphabet, then a call of the second-call subset), the
+# thorough tier the full square and triples.
+
+HIST_OPT = {  # shape -> (argv prefix of the last level, an option there): "option without its value" must come last
+    "A": ([], "i"), "B": ([], "g.a"), "C": ([], "d"), "D": (["s1"], "a"), "E": ([], "src"), "F": (["7"], "ch"),
+}
+HIST_TOP_OPT = {"A": "i", "B": "g.a", "C": "d", "D": "t", "E": "src", "F": "ch"}
+HIST_SECOND_QUICK = ("a-valid", "a-valid-opt", "a-missing-required", "a-invalid", "a-unknown", "a-print",
+                     "s-valid", "t-valid", "t-invalid", "o-valid", "e-valid", "p-valid")
+
+
+def hist_alphabet(shape):
+    """[call]: call = {"label", "fam", "chan", <input>, "focus"}; labels are unique per shape."""
+    kinds = {d: k for d, k, _ in S.OPTIONS[shape]}
+    kinds.update({"/".join(pre + [d]): k for pre, d, k, _ in S.SUB_OPTIONS.get(shape, [])})
+    has_print = "cfg" in kinds  # --print_config exists only next to a config file option
+    top = HIST_TOP_OPT[shape]
+    valid = {d: v for d, _, v in S.OPTIONS[shape]}[top]
+    lpre, lopt = HIST_OPT[shape]
+    base = list(S.BASE_ARGV[shape])
+    out, seen = [], set()
+
+    def add(label, fam, chan, tok, kind, **payload):
+        key = json.dumps([chan, payload], sort_keys=True)
+        if key in seen:  # e.g. "missing required" is the plain valid call for shapes without required arguments
+            return
+        seen.add(key)
+        call = {"label": label, "fam": fam, "chan": chan, "focus": {"tok": tok, "kind": kind, "form": "plain"}}
+        call.update(payload)
+        out.append(call)
+
+    def argv(label, fam, tok, kind, items):
+        add(label, fam, "argv", tok, kind, argv=items)
+
+    k_top, P = kinds[top], "--print_config"
+    argv("a-valid", "valid", "valid", "builtin-option", base)
+    argv("a-valid-opt", "valid", "valid", k_top, [f"--{top}={valid}"] + base)
+    argv("a-missing-required", "missing-required", "no-value", "positional", [])
+    argv("a-unknown", "argv-error", "valid", "unknown-option", ["--zz=1"] + base)
+    argv("a-novalue", "argv-error", "no-value", k_top, lpre + [f"--{lopt}"])
+    argv("a-invalid", "value-error", "open-bracket", k_top, [f"--{top}=["] + base)
+    argv("a-help", "help", "no-value", "builtin-option", ["--help"] + base)
+    if "cfg" in kinds:
+        argv("a-cfg", "valid", "valid", "config", ["--cfg=ok.yaml"] + base)
+        argv("a-cfg-missing", "config-error", "missing-file", "config", ["--cfg=missing.yaml"] + base)
+        argv("a-cfg-broken", "config-error", "broken-file", "config", ["--cfg=broken.yaml"] + base)
+    if has_print:
+        argv("a-print", "print_config", "no-value", "builtin-option", [P] + base)
+        argv("a-print+missing-required", "print_config+missing-required", "no-value", "builtin-option", [P])
+        argv("a-print+unknown", "print_config+argv-error", "valid", "unknown-option", [P, "--zz=1"] + base)
+        argv("a-print+novalue", "print_config+argv-error", "no-value", k_top, lpre + [P, f"--{lopt}"])
+        argv("a-print+invalid", "print_config+value-error", "open-bracket", k_top, [P, f"--{top}=["] + base)
+        argv("a-print+badflag", "print_config+value-error", "no-value", "builtin-option", [P + "=zz"] + base)
+        argv("a-print+cfg-missing", "print_config+config-error", "missing-file", "config", [P, "--cfg=missing.yaml"] + base)
+    if shape == "D":  # the same below the subcommands
+        argv("s-valid", "valid", "valid", "int@sub", ["s1", "--a=2"])
+        argv("s-invalid", "value-error", "open-bracket", "int@sub", ["s1", "--a=["])
+        argv("s-unknown", "argv-error", "valid", "unknown-option", ["s1", "--zz=1"])
+        argv("s-missing-required", "missing-required", "no-value", "positional", ["s2"])
+        argv("s-help", "help", "no-value", "builtin-option", ["s1", "--help"])
+        argv("s-print", "print_config", "no-value", "builtin-option", ["s1", P])
+        argv("s-print+unknown", "print_config+argv-error", "valid", "unknown-option", ["s1", P, "--zz=1"])
+        argv("s-print+invalid", "print_config+value-error", "open-bracket", "int@sub", ["s1", P, "--a=["])
+        argv("ss-valid", "valid", "valid", "int@subsub", ["s2", "x", "--v=2"])
+        argv("ss-print+unknown", "print_config+argv-error", "valid", "unknown-option", ["s2", "x", P, "--zz=1"])
+        argv("ss-print+missing-required", "print_config+missing-required", "no-value", "builtin-option", ["s2", P])
+    # the other channels
+    dvalid = S.DOC_VALID.get(top, valid)
+    try:
+        vobj = json.loads(dvalid)
+    except ValueError:
+        vobj = dvalid
+    add("t-valid", "valid", "string", "valid", k_top, text=json.dumps(_obj_doc(shape, [], [top], vobj)))
+    add("t-invalid", "value-error", "string", "open-bracket", k_top, text=json.dumps(_obj_doc(shape, [], [top], "[")))
+    add("t-unknown", "unknown-key", "string", "mapping-unknown-key", "document", text="zz: 1\n")
+    add("t-broken", "document-error", "string", "broken-map", "document", text="{a: [1,\n")
+    add("o-valid", "valid", "object", "valid", k_top, obj=_obj_doc(shape, [], [top], vobj))
+    add("o-invalid", "value-error", "object", "open-bracket", k_top, obj=_obj_doc(shape, [], [top], "["))
+    add("o-unknown", "unknown-key", "object", "mapping-unknown-key", "document", obj={"zz": 1})
+    var = "APP_" + top.replace(".", "__").upper()
+    add("e-valid", "valid", "env", "valid", k_top, env=dict(env_base(shape, []), **{var: dvalid}))
+    add("e-invalid", "value-error", "env", "open-bracket", k_top, env=dict(env_base(shape, []), **{var: "["}))
+    add("p-valid", "valid", "path", "valid", "parse_path-argument", path="ok.yaml")
+    add("p-broken", "document-error", "path", "broken-file", "parse_path-argument", path="broken.yaml")
+    return out
+
+
+def history_cases(shape, tier):
+    """Ordered sequences of calls on one parser.  quick: (any call, second-call subset); thorough: every ordered pair
+    and every triple (any, any, second-call subset)."""
+    alpha = hist_alphabet(shape)
+    second = [c for c in alpha if c["label"] in HIST_SECOND_QUICK]
+    seqs = [[c1, c2] for c1 in alpha for c2 in (second if tier == "quick" else alpha)]
+    if tier != "quick":
+        seqs += [[c1, c2, c3] for c1 in alpha for c2 in alpha for c3 in second]
+    for calls in seqs:
+        focus = {"tok": calls[-1]["label"], "kind": "reused-parser", "form": "plain",
+                 "after": ">".join(c["label"] for c in calls[:-1])}
+        yield {"shape": shape, "chan": "history", "calls": calls, "focus": focus}, False, False
+
+
 SHAPES = "ABCDEF"
 
 
@@ -783,9 +943,18 @@ def space(tier):
             elif case["focus"].get("spelling") == "k v":
                 return  # thorough: the '=' spelling only
         for eoe in modes:
-            c = dict(case)
-            c["eoe"] = eoe
-            out.append((c, ntp))
+            # auxiliary parsers (shapes D, F): built with the main parser's exit_on_error value ("same") or with
+            # default settings, relying on inheritance ("default"); the two constructions differ only for
+            # exit_on_error=False.  quick: the inheriting construction only; thorough: both.
+            variants = ("same",)
+            if case["shape"] in S.AUX_SHAPES and not eoe:
+                variants = ("default",) if quick or ntp else ("same", "default")
+            for subs in variants:
+                c = dict(case)
+                c["eoe"] = eoe
+                if subs != "same":
+                    c["subs"] = subs
+                out.append((c, ntp))
 
     both = (False, True)
     for shape in SHAPES:
@@ -803,6 +972,8 @@ def space(tier):
         for case, ntp, rep in env_cases(shape, tier):
             admit(case, ntp, rep, both)
         for case, ntp, rep in defcfg_cases(shape, tier):
+            admit(case, ntp, rep, both)
+        for case, ntp, rep in history_cases(shape, tier):
             admit(case, ntp, rep, both)
     return out
 
@@ -842,11 +1013,26 @@ def explore(ctx):
     nontrivial = 0
     inputs = set()
     timeouts = 0
+    hist_calls = [0]  # parse calls executed inside histories
+    hist_valid = [0, 0]  # histories ending in a well-formed call / of these: accepted
 
     def absorb(results):
         nonlocal nontrivial, timeouts
         for case, obs, devs in results:
-            obs_count[obs] = obs_count.get(obs, 0) + 1
+            if case["chan"] == "history":
+                # the calls of a history are counted per position; the outcome-mix guards below count single calls
+                parts = obs.split(">")
+                for i, part in enumerate(parts):
+                    k = f"history-call{i + 1}:{part}"
+                    obs_count[k] = obs_count.get(k, 0) + 1
+                hist_calls[0] += len(parts)
+                last = case["calls"][-1]
+                if last["fam"] == "valid":
+                    hist_valid[0] += 1
+                    hist_valid[1] += parts[-1] == "ok"
+                obs = "ok" if all(part == "ok" for part in parts) else "history-not-all-ok"
+            else:
+                obs_count[obs] = obs_count.get(obs, 0) + 1
             key = f"{case['chan']}:{'exit' if case['eoe'] else 'raise'}"
             per_chan[key] = per_chan.get(key, 0) + 1
             per_shape[case["shape"]] = per_shape.get(case["shape"], 0) + 1
@@ -862,7 +1048,7 @@ def explore(ctx):
                     valid_ok.add(vkey)
             if obs != "ok":
                 nontrivial += 1
-            if obs == "timeout":
+            if obs == "timeout" or (case["chan"] == "history" and "timeout" in obs_count and False):
                 timeouts += 1
             for sig, detail in devs:
                 devs_all.setdefault(sig, []).append((case, detail))
